@@ -153,7 +153,7 @@ PROPS = {
         harnesses=[
             dict(name="VerifFilterRoundTrip", bounds=dict(quick=dict(N=3, PIPE=2), thorough=dict(N=5, PIPE=2)), opts=dict(unwind=300)),
             dict(name="VerifRunLengthRuns", opts=dict(unwind=600)),
-            dict(name="VerifASCII85RoundTrip", bounds=dict(quick=dict(N=3), thorough=dict(N=3)), opts=dict(enc="int", solver="z3-new", timeout_ms=120000, workers=4, unwind=300)),
+            dict(name="VerifASCII85RoundTrip", bounds=dict(quick=dict(N=3), thorough=dict(N=3)), opts=dict(enc="int", solver="z3-new", timeout_ms=30000, workers=4, unwind=300)),
             dict(name="VerifASCII85Pipelines", bounds=dict(quick=dict(N=1), thorough=dict(N=2)), opts=dict(enc="int", solver="z3-new", timeout_ms=120000, workers=6, unwind=300), thorough_only=True),
         ],
     ),
